@@ -636,6 +636,19 @@ fn base_bytes(kind: &str, base: &str) -> Vec<u8> {
             out.extend_from_slice(&enc_msg(&h, &payload));
         }
         out
+    } else if let Some(r) = base.strip_prefix('L') {
+        // n announcements of file transfers (never continued), each announcing 1000 packages of 2000 bytes
+        let n: u32 = r.parse().unwrap_or(1);
+        let mut out = vec![];
+        for i in 0..n {
+            let h = Hdr { serial: false, ecu: 1, recv: 1_700_000_000_000_000 + i as u64 * 1000, ts: i * 10, be: false, mcnt: i as u8, vmm: (4 << 4) | 1, noar: 8, apid: id4("SYS"), ctid: id4("FILE"), weid: true, wsid: false, wtms: true, ext: true };
+            let payload = enc_args(
+                false,
+                &[(DLT_TYPE_INFO_STRG, b"FLST\0".to_vec()), (U32T, (i + 1).to_le_bytes().to_vec()), (DLT_TYPE_INFO_STRG, format!("f{}.bin\0", i).into_bytes()), (U32T, 2_000_000u32.to_le_bytes().to_vec()), (DLT_TYPE_INFO_STRG, b"date\0".to_vec()), (U32T, 1000u32.to_le_bytes().to_vec()), (U32T, 2000u32.to_le_bytes().to_vec()), (DLT_TYPE_INFO_STRG, b"FLST\0".to_vec())],
+            );
+            out.extend_from_slice(&enc_msg(&h, &payload));
+        }
+        out
     } else if let Some(r) = base.strip_prefix('Z') {
         let f: Vec<&str> = r.split(':').collect();
         let seed: u64 = f[0].parse().unwrap_or(1);
@@ -914,7 +927,8 @@ fn spawn_worker() -> Worker {
     // address-space limit: an allocation unrelated to the input size aborts the worker, not the harness
     let mut cmd = if std::path::Path::new("/usr/bin/prlimit").exists() {
         let mut c = std::process::Command::new("/usr/bin/prlimit");
-        c.arg("--as=4294967296").arg(exe);
+        // 1.5 GiB: the pipeline itself reserves 0.5 - 1 GB (the message queue of the lifecycle stage, whatever the input)
+        c.arg(format!("--as={}", std::env::var("VERIF_C03_AS").ok().and_then(|v| v.parse::<u64>().ok()).unwrap_or(1536 * 1024 * 1024))).arg(exe);
         c
     } else {
         std::process::Command::new(exe)
